@@ -3,7 +3,7 @@
 set -e
 cd /verif/coq
 [ -f Makefile ] && [ Makefile -nt _CoqProject ] || coq_makefile -f _CoqProject -o Makefile >/dev/null
-timeout 3000 make -j16 "$@" 2>&1 | grep -v "^COQDEP\|^COQC\|^make" || true
+timeout 3000 make -j16 "$@" 2>&1 | grep -E "Error|error|^File " -A8 || true
 test "${PIPESTATUS[0]}" = 0
 mkdir -p /verif/.build/extract
 cd /verif/.build/extract
